@@ -64,11 +64,11 @@ def count_of(y):
 
 def narrow_grammars(res, prop):
     """the grammar object at the edge of a narrow index type, as C10 sees it: u8 builds of grammars with
-    253 .. 257 rules / tokens / productions must report the sizes the source defines (dense numbering,
+    249 .. 258 rules / tokens / productions must report the sizes the source defines (dense numbering,
     indices in range) or be refused - never wrap, never panic in a query"""
     insts = []
     for dim in ("rules", "tokens", "prods"):
-        for v in range(252, 258):
+        for v in range(249, 259):
             for eco in ([False, True] if dim != "tokens" else [False]):
                 y, c = gen(dim, v, eco, nimp=2 if eco else 0)
                 insts.append(dict(id="narrow-%s-%d%s" % (dim, v, "-eco" if eco else ""), y=y, kind="eco" if eco else "original", counts=c, skip16=True))
